@@ -330,3 +330,36 @@ def is_number(v):
     if isinstance(v, z3.ExprRef):
         return True
     return isinstance(v, (int, float, Fraction)) and not isinstance(v, bool)
+
+
+class IntMap(Sort):
+    """dict with integer keys and numeric values, symbolic keys (z3 arrays)"""
+
+    def __init__(self, real=True, maxkeys=4):
+        self.real, self.maxkeys = real, maxkeys
+
+    def fresh(self, ctx, name):
+        from .values import SMap
+        dom = z3.Array(ctx.fresh_name(name + "_dom"), z3.IntSort(), z3.BoolSort())
+        val = z3.Array(ctx.fresh_name(name + "_val"), z3.IntSort(), z3.RealSort() if self.real else z3.IntSort())
+        m = SMap(dom, val)
+        m._keys_hint = [ctx.fresh_int(name + "_k%d" % i) for i in range(self.maxkeys)]
+        return m
+
+    def sample(self, rng):
+        return {rng.randint(0, 12): Fraction(rng.randint(0, 8)) for _ in range(rng.randint(0, self.maxkeys))}
+
+    def from_model(self, ev, v):
+        out = {}
+        for k in range(-2, 40):
+            if ev(v.has(k)):
+                out[k] = Fraction(ev(v.get(k))) if self.real else int(ev(v.get(k)))
+        return out
+
+    def jsonable(self, c):
+        return {str(k): _json(x) for k, x in c.items()}
+
+    def reshape(self, v):
+        if hasattr(v, "__dict__") and not isinstance(v, dict):
+            v = {k: x for k, x in v.__dict__.items() if k != "_cls"}
+        return {int(k): x for k, x in v.items()}
